@@ -81,6 +81,8 @@ def scalar_constraints(s, v, kind):
         if "enum" in s:
             r.append(OR(*["%s == %d" % (v, e) for e in s["enum"]]))
     elif kind == "num":
+        if "enum" in s:
+            r.append(OR(*["%s == %s" % (v, gofloat(e)) for e in s["enum"]]))
         if "minimum" in s:
             r.append("%s %s %s" % (v, ">" if s.get("exclusiveMinimum") else ">=", gofloat(s["minimum"])))
         if "maximum" in s:
@@ -376,6 +378,12 @@ def build():
                 base["format"] = f
             add_case("number", "number/%s required query" % (f or "-"), dict(base, **{"in": "query", "required": True}))
             add_case("number", "number/%s optional header" % (f or "-"), dict(base, **{"in": "header"}))
+    for f in ["", "float"]:
+        base = {"type": "number", "enum": [0.5, 2.5]}
+        if f:
+            base["format"] = f
+        add_case("number", "number/%s enum required query" % (f or "-"), dict(base, **{"in": "query", "required": True}))
+        add_case("number", "number/%s enum optional header" % (f or "-"), dict(base, **{"in": "header"}))
     # strings
     for vn, v in [("lengths", {"minLength": 2, "maxLength": 2}), ("enum", {"enum": ["ab", "c"]}), ("pattern", {"pattern": "^ab"}), ("plain", {})]:
         base = {"type": "string"}
